@@ -849,4 +849,247 @@ theorem evaluate_refines' {σ : Type} (c : Config) (L : Learner σ V) (first : D
   rw [← this]
   cases runChunks c (mkFlags first) L false s [] [] (List.map (fun x => [x]) (first :: rest)) <;> rfl
 
+/-! ## validation -/
+
+omit [DecidableEq V] [RewardFn R V] in
+theorem missingKeys_ne_nil_iff (c : Config) (hs : Bool) (first : Dict (Fld V R)) :
+    missingKeys c hs first ≠ [] ↔ ∃ k ∈ required c hs, first.has k = false := by
+  unfold missingKeys
+  constructor
+  · intro h
+    cases hf : (required c hs).filter (fun k => !first.has k) with
+    | nil => exact absurd hf h
+    | cons k ks =>
+      have hk : k ∈ (required c hs).filter (fun k => !first.has k) := by rw [hf]; simp
+      simp only [List.mem_filter, Bool.not_eq_true'] at hk
+      exact ⟨k, hk.1, hk.2⟩
+  · intro ⟨k, hk, h⟩ hnil
+    have : k ∈ (required c hs).filter (fun k => !first.has k) := List.mem_filter.mpr ⟨hk, by simp [h]⟩
+    rw [hnil] at this
+    cases this
+
+omit [DecidableEq V] [RewardFn R V] in
+theorem ofExcept_ne_rejected {α : Type} (x : Except Err α) (ks : List String) : Outcome.ofExcept x ≠ .rejected ks := by
+  cases x <;> simp [Outcome.ofExcept]
+
+theorem validate_iff' {σ : Type} (c : Config) (L : Learner σ V) (bs : Option Nat) (env : List (Dict (Fld V R))) (s : σ) :
+    (∃ ks, evaluate c L bs env s = .rejected ks) ↔
+      ∃ first rest, env = first :: rest ∧ ∃ k ∈ required c L.hasScore, first.has k = false := by
+  cases env with
+  | nil => simp [evaluate]
+  | cons first rest =>
+    have hiff := missingKeys_ne_nil_iff c L.hasScore first
+    have hrhs : (∃ first' rest', first :: rest = first' :: rest' ∧ ∃ k ∈ required c L.hasScore, first'.has k = false)
+        ↔ missingKeys c L.hasScore first ≠ [] := by
+      rw [hiff]
+      constructor
+      · rintro ⟨f', r', heq, hk⟩
+        simp only [List.cons.injEq] at heq
+        rw [heq.1]; exact hk
+      · intro hk; exact ⟨first, rest, rfl, hk⟩
+    rw [hrhs]
+    simp only [evaluate]
+    cases hm : missingKeys c L.hasScore first with
+    | nil =>
+      simp only [List.isEmpty_nil, Bool.not_true, Bool.false_eq_true, if_false, ne_eq, not_true_eq_false, iff_false, not_exists]
+      intro ks
+      cases bs <;> simp [ofExcept_ne_rejected]
+    | cons k ks => simp
+
+theorem rejected_keys' {σ : Type} (c : Config) (L : Learner σ V) (bs : Option Nat) (first : Dict (Fld V R))
+    (rest : List (Dict (Fld V R))) (s : σ) (ks : List String) (h : evaluate c L bs (first :: rest) s = .rejected ks) :
+    ks = (required c L.hasScore).filter (fun k => !first.has k) := by
+  simp only [evaluate] at h
+  cases hm : missingKeys c L.hasScore first with
+  | nil =>
+    rw [hm] at h
+    simp only [List.isEmpty_nil, Bool.not_true, Bool.false_eq_true, if_false] at h
+    cases bs <;> simp [ofExcept_ne_rejected] at h
+  | cons k ks' =>
+    rw [hm] at h
+    simp only [List.isEmpty_cons, Bool.not_false, if_true, Outcome.rejected.injEq] at h
+    rw [← h, ← hm]; rfl
+
+theorem mem_requiredS_iff (c : Config) (hs : Bool) (k : String) :
+    k ∈ requiredS c hs ↔ k ∈ required c hs ∨ (k = "probability" ∧ (c.learn = .ips ∨ c.eval = .ips)) := by
+  obtain ⟨l, e, r⟩ := c
+  cases l <;> cases e <;> cases hs <;>
+    by_cases ha : "action" ∈ r <;> by_cases hp : "probability" ∈ r <;>
+    simp [requiredS, required, needPred, outAction, outProb, Config.rcd, bne, ha, hp] <;> grind
+
+/-! ## shape of the specified trace and rows -/
+
+def Call.ctx : Call V → Option V
+  | .predict c _ => c
+  | .score c _ _ => c
+  | .learn c _ _ _ _ => c
+
+def Call.isPredict : Call V → Bool
+  | .predict _ _ => true
+  | _ => false
+
+/-- the calls of one interaction, written out -/
+theorem specInter_calls {σ : Type} {c : Config} {fl : Flags} (L : Learner σ V) (s : σ) (v : View V R)
+    (r : σ × List (Call V) × Row V R) (h : specInter c fl L s v = some r) :
+    ∃ lc : List (Call V),
+      r.2.1 = (if needPred c L.hasScore then [Call.predict v.ctx v.acts] else [])
+        ++ (if (c.eval == .ips && L.hasScore && !needPred c L.hasScore) then [Call.score v.ctx v.acts v.offAct] else [])
+        ++ lc
+      ∧ ((c.learn = .none ∧ lc = []) ∨
+         (c.learn ≠ .none ∧ ∃ a, learnArgsS c v (if needPred c L.hasScore then some (L.predict s v.ctx v.acts).2 else none) = some a
+            ∧ lc = [Call.learn v.ctx a.1 a.2.1 a.2.2.1 a.2.2.2])) := by
+  unfold specInter at h
+  simp only [Option.bind_eq_some_iff, Option.map_eq_some_iff] at h
+  obtain ⟨er, _, sc3, hl, row, _, hr⟩ := h
+  subst hr
+  by_cases hln : (c.learn != .none) = true
+  · rw [if_pos hln] at hl
+    simp only [Option.map_eq_some_iff] at hl
+    obtain ⟨a, ha, hsc⟩ := hl
+    subst hsc
+    refine ⟨_, rfl, Or.inr ⟨by simpa [bne] using hln, a, ha, rfl⟩⟩
+  · rw [if_neg hln] at hl
+    simp only [Option.some.injEq] at hl
+    subst hl
+    refine ⟨[], by simp, Or.inl ⟨by simpa [bne] using hln, rfl⟩⟩
+
+theorem specInter_ctx {σ : Type} {c : Config} {fl : Flags} (L : Learner σ V) (s : σ) (v : View V R)
+    (r : σ × List (Call V) × Row V R) (h : specInter c fl L s v = some r) : ∀ call ∈ r.2.1, Call.ctx call = v.ctx := by
+  obtain ⟨lc, hcs, hlc⟩ := specInter_calls L s v r h
+  intro call hc
+  rw [hcs] at hc
+  simp only [List.mem_append] at hc
+  rcases hc with (hc | hc) | hc
+  · split at hc <;> simp at hc; subst hc; rfl
+  · split at hc <;> simp at hc; subst hc; rfl
+  · rcases hlc with ⟨_, h0⟩ | ⟨_, a, _, h1⟩
+    · subst h0; simp at hc
+    · subst h1; simp at hc; subst hc; rfl
+
+/-- interactions strictly in environment order: the trace is the concatenation, in order, of one group of
+calls per interaction, and every call of the i-th group carries the i-th interaction's context -/
+theorem specRun_order {σ : Type} {c : Config} {fl : Flags} (L : Learner σ V) (vs : List (View V R)) (s : σ)
+    (r : σ × List (Call V) × List (Row V R)) (h : specRun c fl L s vs = some r) :
+    ∃ groups : List (List (Call V)), r.2.1 = groups.flatten ∧ r.2.2.length = vs.length ∧ groups.length = vs.length ∧
+      ∀ vg ∈ vs.zip groups, ∀ call ∈ vg.2, Call.ctx call = vg.1.ctx := by
+  induction vs generalizing s r with
+  | nil =>
+    simp only [specRun, Option.some.injEq] at h
+    subst h
+    exact ⟨[], rfl, rfl, rfl, by simp⟩
+  | cons v vs ih =>
+    simp only [specRun, Option.bind_eq_some_iff, Option.map_eq_some_iff] at h
+    obtain ⟨r1, h1, r2, h2, hr⟩ := h
+    subst hr
+    obtain ⟨gs, hg1, hg2, hg3, hg4⟩ := ih r1.1 r2 h2
+    refine ⟨r1.2.1 :: gs, by simp [hg1], by simp [hg2], by simp [hg3], ?_⟩
+    intro vg hvg
+    simp only [List.zip_cons_cons, List.mem_cons] at hvg
+    rcases hvg with hvg | hvg
+    · subst hvg; exact specInter_ctx L s v r1 h1
+    · exact hg4 vg hvg
+
+theorem specRun_no_predict {σ : Type} {c : Config} {fl : Flags} (L : Learner σ V) (hnp : needPred c L.hasScore = false)
+    (vs : List (View V R)) (s : σ) (r : σ × List (Call V) × List (Row V R)) (h : specRun c fl L s vs = some r) :
+    ∀ call ∈ r.2.1, Call.isPredict call = false := by
+  induction vs generalizing s r with
+  | nil =>
+    simp only [specRun, Option.some.injEq] at h
+    subst h; simp
+  | cons v vs ih =>
+    simp only [specRun, Option.bind_eq_some_iff, Option.map_eq_some_iff] at h
+    obtain ⟨r1, h1, r2, h2, hr⟩ := h
+    subst hr
+    intro call hc
+    simp only [List.mem_append] at hc
+    rcases hc with hc | hc
+    · obtain ⟨lc, hcs, hlc⟩ := specInter_calls L s v r1 h1
+      rw [hcs, hnp] at hc
+      simp only [Bool.false_eq_true, if_false, List.nil_append, List.mem_append] at hc
+      rcases hc with hc | hc
+      · split at hc <;> simp at hc; subst hc; rfl
+      · rcases hlc with ⟨_, h0⟩ | ⟨_, a, _, h1'⟩
+        · subst h0; simp at hc
+        · subst h1'; simp at hc; subst hc; rfl
+    · exact ih r1.1 r2 h2 call hc
+
+/-- on-policy learning: exactly one predict with the interaction's context and actions, then one learn with the
+same context, the action the learner chose, the environment's (or IPS) reward for that action, and the learner's
+own probability and kwargs -/
+theorem specInter_on_policy {σ : Type} {c : Config} {fl : Flags} (L : Learner σ V) (s : σ) (v : View V R)
+    (r : σ × List (Call V) × Row V R) (h : specInter c fl L s v = some r) (hl : c.learn = .on ∨ c.learn = .ips) :
+    ∃ rew, (if c.learn = .on then envReward v (L.predict s v.ctx v.acts).2.action
+            else ipsReward v (some (L.predict s v.ctx v.acts).2.action)) = some rew ∧
+      r.2.1 = [Call.predict v.ctx v.acts,
+               Call.learn v.ctx (some (L.predict s v.ctx v.acts).2.action) (some rew)
+                 (L.predict s v.ctx v.acts).2.prob (L.predict s v.ctx v.acts).2.kw] := by
+  obtain ⟨lc, hcs, hlc⟩ := specInter_calls L s v r h
+  have hnp : needPred c L.hasScore = true := by
+    rcases hl with hl | hl <;> simp [needPred, hl]
+  rw [hnp] at hcs hlc
+  simp only [if_true, Bool.not_true, Bool.and_false, Bool.false_eq_true, if_false, List.append_nil] at hcs hlc
+  rcases hlc with ⟨h0, _⟩ | ⟨_, a, ha, h1⟩
+  · rcases hl with hl | hl <;> rw [hl] at h0 <;> cases h0
+  · rcases hl with hl | hl
+    · simp only [learnArgsS, hl, Option.map_eq_some_iff] at ha
+      obtain ⟨rew, hrew, haeq⟩ := ha
+      subst haeq
+      exact ⟨rew, by simp [hl, hrew], by rw [hcs, h1]; rfl⟩
+    · simp only [learnArgsS, hl, Option.map_eq_some_iff] at ha
+      obtain ⟨rew, hrew, haeq⟩ := ha
+      subst haeq
+      exact ⟨rew, by simp [hl, hrew], by rw [hcs, h1]; rfl⟩
+
+/-- off-policy learning: the learn call carries the logged action, reward and probability, and no kwargs -/
+theorem specInter_off_policy {σ : Type} {c : Config} {fl : Flags} (L : Learner σ V) (s : σ) (v : View V R)
+    (r : σ × List (Call V) × Row V R) (h : specInter c fl L s v = some r) (hl : c.learn = .off) :
+    r.2.1.getLast? = some (Call.learn v.ctx v.offAct v.offRwd v.offPr []) := by
+  obtain ⟨lc, hcs, hlc⟩ := specInter_calls L s v r h
+  rcases hlc with ⟨h0, _⟩ | ⟨_, a, ha, h1⟩
+  · rw [hl] at h0; cases h0
+  · simp only [learnArgsS, hl, Option.some.injEq] at ha
+    subst ha
+    rw [hcs, h1]
+    simp
+
+/-- every additional field of the interaction is carried into its row unchanged (the row ends with them, in order) -/
+theorem specInter_extras {σ : Type} {c : Config} {fl : Flags} (L : Learner σ V) (s : σ) (v : View V R)
+    (r : σ × List (Call V) × Row V R) (h : specInter c fl L s v = some r) :
+    ∃ pre : Row V R, r.2.2 = pre ++ v.extras.map (fun kv => (kv.1, Cell.fld kv.2))
+      ∧ ∀ b ∈ pre, b.1 ∈ implicitExclude := by
+  unfold specInter at h
+  simp only [Option.bind_eq_some_iff, Option.map_eq_some_iff] at h
+  obtain ⟨er, _, sc3, _, row, hrow, hr⟩ := h
+  subst hr
+  simp only [rowS, Option.map_eq_some_iff] at hrow
+  obtain ⟨rw, hrw, hrow⟩ := hrow
+  subst hrow
+  refine ⟨_, rfl, ?_⟩
+  intro b hb
+  have hrwk : ∀ b ∈ rw, b.1 = "rewards" := by
+    intro b hb
+    unfold rewardsCellS at hrw
+    split at hrw
+    · split at hrw
+      · split at hrw
+        · simp only [Option.map_eq_some_iff] at hrw
+          obtain ⟨xs, _, hx⟩ := hrw
+          subst hx; simp at hb; simp [hb]
+        · cases hrw
+      · simp only [Option.map_eq_some_iff] at hrw
+        obtain ⟨f, _, hx⟩ := hrw
+        subst hx; simp at hb; simp [hb]
+    · simp only [Option.some.injEq] at hrw
+      subst hrw; simp at hb
+  simp only [List.mem_append] at hb
+  rcases hb with ((((hb | hb) | hb) | hb) | hb) | hb
+  · split at hb <;> simp at hb; subst hb; simp [implicitExclude]
+  · split at hb <;> simp at hb; subst hb; simp [implicitExclude]
+  · split at hb <;> simp at hb; subst hb; simp [implicitExclude]
+  · split at hb <;> simp at hb; subst hb; simp [implicitExclude]
+  · rw [hrwk b hb]; simp [implicitExclude]
+  · split at hb
+    · split at hb <;> simp at hb; subst hb; simp [implicitExclude]
+    · simp at hb
+
 end Coba.C06
